@@ -94,6 +94,10 @@ def _peel(node: ast.expr, peel, where: str) -> ast.expr:
             if not (isinstance(node, ast.Call) and ast.unparse(node.func).split(".")[-1] == fname and len(node.args) > i):
                 raise SiteError(where, f"expected {fname}(..) with > {i} arguments, found {ast.unparse(node)[:80]}")
             node = node.args[i]
+        elif p == "genelt":
+            if not isinstance(node, ast.GeneratorExp):
+                raise SiteError(where, f"expected a generator expression, found {ast.unparse(node)[:80]}")
+            node = node.elt
         elif isinstance(p, tuple) and p[0] == "elt":
             if not (isinstance(node, ast.Tuple) and len(node.elts) > p[1]):
                 raise SiteError(where, f"expected a tuple with > {p[1]} elements, found {ast.unparse(node)[:80]}")
